@@ -318,18 +318,24 @@ def fill_rules(ctx, facts, lev):
         if d[0] == "assign":
             mins.append((d[1], relcell(_cost_cell(lev, d[3])), lev.line_of_block(d[1])))
     nops = 0
+    recs = []
     for d in lev.defs(OP):
         if d[0] != "assign":
             continue
         rv = d[3]
         if rv[0] == "use":
+            # `op = <temp>`: the temporary may be defined in several arms (`op = if c { A } else { B }`): every arm records
             src = raw_operand_place(lev, rv[1])
             sd = [x for x in lev.defs(src[0]) if x[0] == "assign"] if src else []
-            rv = sd[0][3] if len(sd) == 1 else rv
+            if sd:
+                for x in sd:
+                    recs.append((x[1] if len(sd) > 1 else d[1], x[3]))
+                continue
+        recs.append((d[1], rv))
+    for B, rv in recs:
         if rv[0] != "agg" or rv[2] != EDITOP:
             continue
         v = rv[3]
-        B = d[1]
         # nearest dominating assignment of min
         cands = [(mb, cell, ln) for mb, cell, ln in mins if dom.dominates(mb, B)]
         cands.sort(key=lambda x: len(dom.dominators(x[0])))
